@@ -488,10 +488,10 @@ PROPERTY = {
         "class-frequency claim judged only when every class of the data occurs in the window (otherwise the injector redistributes the mass)",
     ],
     "subchecks": [
-        SubCheck("frame_effect", check_frame, strategy=strat_frame, nontrivial=lambda L: "nontrivial" in L, quick=3000, thorough=60000, shards_quick=16, describe=_desc),
-        SubCheck("instance_reuse", check_reuse, strategy=strat_reuse, nontrivial=lambda L: "nontrivial" in L, quick=500, thorough=8000, shards_quick=8,
+        SubCheck("frame_effect", check_frame, strategy=strat_frame, nontrivial=lambda L: "nontrivial" in L, quick=3000, thorough=180000, shards_quick=16, describe=_desc),
+        SubCheck("instance_reuse", check_reuse, strategy=strat_reuse, nontrivial=lambda L: "nontrivial" in L, quick=500, thorough=24000, shards_quick=8,
                  describe=lambda c: {"which": c["which"], "datasets": [{"kind": d["kind"], "labels": d.get("labels"), "col_order": d.get("col_order"), "rows": len(d["cls"])} for d in c["datasets"]]}),
-        SubCheck("dirichlet_dominant_class", check_dirichlet, strategy=strat_dirichlet, nontrivial=lambda L: "unsorted-alpha-keys" in L, quick=250, thorough=4000, shards_quick=8, describe=_desc),
-        SubCheck("resampling_frequencies", check_frequencies, strategy=strat_frequencies, nontrivial=lambda L: "frequencies-tested" in L, quick=250, thorough=4000, shards_quick=8, describe=_desc),
+        SubCheck("dirichlet_dominant_class", check_dirichlet, strategy=strat_dirichlet, nontrivial=lambda L: "unsorted-alpha-keys" in L, quick=250, thorough=12000, shards_quick=8, describe=_desc),
+        SubCheck("resampling_frequencies", check_frequencies, strategy=strat_frequencies, nontrivial=lambda L: "frequencies-tested" in L, quick=250, thorough=12000, shards_quick=8, describe=_desc),
     ],
 }
